@@ -16,7 +16,7 @@ use std::sync::Mutex;
 use std::time::Instant;
 
 pub const POOL_LIMIT: usize = 65535;
-pub const NKINDS: u64 = 29;
+pub const NKINDS: u64 = 30;
 
 struct B {
     ops: Vec<OpRec>,
@@ -107,6 +107,7 @@ fn pool_image(total: usize, long_refs: bool, rng: &mut Prng) -> ForeignSpec {
             catalog_first: false,
             stale_validation: Vec::new(),
             saturate: None,
+            alt_category: false,
         }
     };
     // the catalog contributes its own strings: measure, then size the table
@@ -290,6 +291,11 @@ pub fn scenario(seed: u64, idx: u64) -> Trace {
             }
             b.push(Op::WriteStream { name: format!("😀{}", "-".repeat(30)), dseed: 120, steps: vec![WStep::Write(10)] });
             b.push(Op::WriteStream { name: format!("😀{}", "-".repeat(29)), dseed: 121, steps: vec![WStep::Write(10)] });
+            // ... and the wide character last, arriving with 2, 1 and 0 units left
+            for (i, l) in [29usize, 30, 31].iter().enumerate() {
+                b.push(Op::WriteStream { name: format!("{}😀", "-".repeat(*l)), dseed: 130 + i as u32, steps: vec![WStep::Write(10)] });
+                b.push(Op::WriteStream { name: format!("{}😀", "Ab".repeat(*l)), dseed: 140 + i as u32, steps: vec![WStep::Write(10)] });
+            }
             b.push(Op::Observe);
             b.restart(&mut rng);
             trace(seed, idx, created, b.ops, &mut rng)
@@ -316,6 +322,13 @@ pub fn scenario(seed: u64, idx: u64) -> Trace {
             b.push(Op::Insert { table: "Same".into(), rows });
             b.push(Op::Observe);
             b.restart(&mut rng);
+            if idx / NKINDS % 3 == 2 {
+                // one statement assigning 65,536+ references to one string (the count saturates half-way)
+                let n = Val::Str("Q76Qall".into());
+                b.push(Op::Update { table: "Same".into(), sets: vec![("A".into(), n.clone()), ("B".into(), n)], cond: None });
+                b.push(Op::Observe);
+                b.restart(&mut rng);
+            }
             b.push(Op::Delete { table: "Same".into(), cond: Some(Cond::Cmp("K".into(), CmpOp::Lt, Val::Int(10))) });
             b.push(Op::Update { table: "Same".into(), sets: vec![("B".into(), Val::Null)], cond: Some(Cond::Cmp("K".into(), CmpOp::Lt, Val::Int(100))) });
             b.push(Op::Observe);
@@ -431,6 +444,25 @@ pub fn scenario(seed: u64, idx: u64) -> Trace {
             b.push(Op::Restart { mode: CloseMode::Drop, edits: Vec::new() });
             trace(seed, idx, Init::Foreign(Box::new(spec)), b.ops, &mut rng)
         }
+        // ---- capacity that a session freed only by lowering reference counts
+        29 => {
+            let spec = pool_image(POOL_LIMIT, false, &mut rng);
+            let s6 = Val::Str(format!("Q{}Q", 700_000 + 5)); // the string of row K = 6
+            let at = |k: i32| Some(Cond::Cmp("K".into(), CmpOp::Eq, Val::Int(k)));
+            // session 1: row 5 shares row 6's string (a reference count goes up, nothing else)
+            b.push(Op::Update { table: "P".into(), sets: vec![("S2".into(), s6)], cond: at(5) });
+            b.restart(&mut rng);
+            // session 2: ... and gives it back (a reference count goes down, nothing else)
+            b.push(Op::Update { table: "P".into(), sets: vec![("S2".into(), Val::Null)], cond: at(5) });
+            b.restart(&mut rng);
+            // session 3: the last holder goes, so there is room for exactly one new string
+            b.push(Op::Delete { table: "P".into(), cond: at(6) });
+            b.push(Op::Insert { table: "P".into(), rows: vec![prow(1_000_001, new_str(1))] });
+            b.push(Op::Observe);
+            b.push(Op::Insert { table: "P".into(), rows: vec![prow(1_000_002, new_str(2))] });
+            b.restart(&mut rng);
+            trace(seed, idx, Init::Foreign(Box::new(spec)), b.ops, &mut rng)
+        }
         // ---- a seeded ordinary history on top of a near-full pool
         _ => {
             let spec = pool_image(POOL_LIMIT - 1 - rng.usize_below(3), false, &mut rng);
@@ -516,7 +548,7 @@ pub fn check(tier: &str, seed: u64) -> i32 {
     let mut extra = BTreeMap::new();
     extra.insert(
         "scenario_kinds".to_string(),
-        serde_json::json!("0-2 columns 31/32/33; 3-5 rows 65535/65536/65537 in one batch; 6-7 rows incrementally (with restarts); 8 rows after deletions; 9-16 string pool at L-1/L with two-byte references (insert, batch, delete-then-insert, update, create_table, restart in between); 17 three-byte references; 18-19 table/column name lengths; 20 stream name lengths; 21 string widths 254/255/256; 22 16-bit refcount saturation; 23 seeded history on a near-full pool; 24 full pool plus a string with a saturated refcount; 25 one row needing two entries when one is free; 26 _Validation at its own 65,536-row limit; 27 full pool, freed slots, existing strings re-used before new ones; 28 read-only sessions on a full pool"),
+        serde_json::json!("0-2 columns 31/32/33; 3-5 rows 65535/65536/65537 in one batch; 6-7 rows incrementally (with restarts); 8 rows after deletions; 9-16 string pool at L-1/L with two-byte references (insert, batch, delete-then-insert, update, create_table, restart in between); 17 three-byte references; 18-19 table/column name lengths; 20 stream name lengths; 21 string widths 254/255/256; 22 16-bit refcount saturation; 23 seeded history on a near-full pool; 24 full pool plus a string with a saturated refcount; 25 one row needing two entries when one is free; 26 _Validation at its own 65,536-row limit; 27 full pool, freed slots, existing strings re-used before new ones; 28 read-only sessions on a full pool; 29 capacity freed by sessions that only lower reference counts"),
     );
     extra.insert("scenarios_per_kind".to_string(), serde_json::json!(kinds.into_inner().unwrap().into_iter().map(|(k, v)| (k.to_string(), v)).collect::<BTreeMap<_, _>>()));
     let rep = CheckReport {
